@@ -93,10 +93,16 @@ def check(run):
         for _ in range(3 if quick else 12):
             items = [rnd.choice(["\t%s", "%s\n", " %s ", "%s\r\n", "%s"]) % rnd.choice(acc[e]) for _ in range(rnd.randint(2, 4))]
             runs.append({"tag": "wiring", "argv": [codes(x) for x in [e, "sort"] + items]})
+    ch2 = versgen.chains(run, chain=2)      # build metadata (+), tildes, epochs, upper case: nothing may be decoded or folded on the way
     for sc in versgen.SCHEMES:
         for _ in range(6 if quick else 40):
             a, b = sorted(rnd.sample(range(17), 2))
             runs.append({"tag": "wiring", "argv": [codes(x) for x in ["vers", "contains", "vers:%s/>=%s|<%s" % (sc, ch[sc][a], ch[sc][b]), rnd.choice(ch[sc])]]})
+        special = [t for t in ch2[sc] if any(c in t for c in "+~%:!")] or ch2[sc][:2]
+        for t in special[:6]:
+            for op in (">=", "!="):
+                runs.append({"tag": "wiring", "argv": [codes(x) for x in ["vers", "contains", "vers:%s/%s%s" % (sc, op, t), rnd.choice(ch2[sc])]]})
+                runs.append({"tag": "wiring", "argv": [codes(x) for x in ["vers", "contains", "vers:%s/%s%s" % (sc, op, t), t]]})
     # VERS front end on the universes' own members (mixed case, build metadata, epochs): one-constraint
     # ranges are always well-formed, so the CLI must print exactly the library's answer for the text as given
     for sc in versgen.SCHEMES:
